@@ -4,7 +4,7 @@
    Proofs/ReexportFacts.v.  What is proved: exactness outside the classes given by exact_dtype
    (ReexportFacts.v), for every accepted input, per value and per flowset kind. *)
 From NF Require Import Base Nom Types Layout Value V9 Parser Export.
-From NF Require Import ReexportFacts ExportFacts VarFacts RunFacts.
+From NF Require Import ReexportFacts ExportFacts VarFacts RunFacts PacketFacts.
 Open Scope list_scope.
 
 (* one value, ANY accepted input: to_be_bytes returns exactly the bytes consumed whenever
@@ -40,6 +40,17 @@ Theorem C09_flowset_envelope : forall puf s i f r s',
     /\ parse_body puf (fs_id f) s body = (Ok (fs_body f) r0, s').
 Proof. exact parse_flowset_ok. Qed.
 Print Assumptions C09_flowset_envelope.
+
+(* THE ROUND TRIP, whole packet: every V9 packet parse_bytes reports (any state, allowed set,
+   flowset mix, padding, templates cached earlier) whose decoded data values are all of the
+   lossless kinds (lossless_value: unsigned numbers, 3-byte signed, addresses, floats, byte
+   vectors incl. unknown types, protocols other than 145) re-exports to EXACTLY the bytes it
+   occupied: the input is that export followed by the unconsumed rest. *)
+Theorem C09_packet_roundtrip : forall puf allow s x p rest s',
+  parse_one puf allow s x = StOk (PV9 p) rest s' -> v9_lossless p = true ->
+  exists pre, x = pre ++ rest /\ export_v9 p = XOk pre.
+Proof. exact v9_step_reexport. Qed.
+Print Assumptions C09_packet_roundtrip.
 
 (* to_be_bytes never panics on parser output *)
 Theorem C09_no_panic : forall puf allow s x r,
